@@ -128,6 +128,9 @@ def check(rep, F, rule='NORMAL-FORM'):
             continue
         endian = m.group(1)
         sign_t, dig_t, radix_t = _strip(iv[2][0]), _strip(iv[2][1]), iv[2][2]
+        if _call(dig_t, r'Index::index$') and len(dig_t[2]) == 2 and _is(_strip(dig_t[2][1]), 'adt') and _strip(dig_t[2][1])[2] == 'RangeTo':
+            # the kept digits handed over as a sub-slice `&digits[..len - k]` instead of truncating in place
+            dig_t = ('mutated', dig_t[2][0], 'std::vec::Vec::truncate', (_strip(dig_t[2][1])[3][0],))
         if not (_is(dig_t, 'mutated') and re.search(r'Vec::truncate$', TB._plain(dig_t[2]))):
             if _is(sc, 'bin') or not _is(dig_t, 'mutated'):
                 rep.violation(rule, key, 'the digits handed to from_radix_%s are not truncated although the scale is changed (or no strip happens at all): %s' % (endian, TB.show(dig_t)[:80]), fn.where())
